@@ -1386,6 +1386,8 @@ class Worker(actor.RallyActor):
                 self.drive()
             else:
                 self.logger.debug("Worker[%d] is executing tasks at index [%d].", self.worker_id, self.current_task_index)
+                # the previous tasks of an over-committed parallel element may have added samples after we have last sent them
+                self.send_samples()
                 self.sampler = Sampler(start_timestamp=time.perf_counter(), buffer_size=self.sample_queue_size)
                 executor = AsyncIoAdapter(
                     self.config,
